@@ -53,6 +53,9 @@ def run(ctx, out):
                 hdr = bytes([c0, c1])
                 ops.append("placeholder")
                 meta.append((e["name"], c0, c1, "empty"))
+                # the bare control field: two bytes, no length byte at all
+                ops.append(f"parse {e['name']} {c0:02x}{c1:02x}")
+                meta.append((e["name"], c0, c1, "bare"))
                 if key in ctrl_of or thorough or (c0 * 256 + c1) % 7 == 0:
                     cand = [(n, b) for n in bodies for b in bodies[n]] if key in ctrl_of else [(vs[0][0], first_body)]
                     for n, b in cand:
@@ -115,7 +118,7 @@ def run(ctx, out):
             out.oracle_failures.append({"op": ops[k], "observed": r[:300], "expected": w[:300], "key": ops[k][:100],
                                         "what": f"{meta[k][0]}: reply parser does not return exactly what the variant's own packet type decodes"})
     out.exhaustive = True
-    out.rule = ("all reply enums x all 65,536 (class, instr) pairs with an empty body; for control fields inside the reply set also valid bodies of every variant of the enum and random bodies "
+    out.rule = ("all reply enums x all 65,536 (class, instr) pairs with an empty body and as a bare two-byte input without length byte; for control fields inside the reply set also valid bodies of every variant of the enum and random bodies "
                 "(thorough: a valid body for every pair); inputs shorter than two bytes. Oracle: outside the reply set => error; inside => identical to the variant type's own zvt_deserialize. "
                 "non-trivial = ops whose control field is in the reply set")
     out.samples = [ops[10], ops[1551], {"op": dec_ops[3][:120], "impl": dec_impl[3][:200]}]
